@@ -353,6 +353,39 @@ def _iterates(ctx: Ctx, f: FunctionInfo, c: Contrib) -> List[Tuple[Optional[str]
     return outer + list(c.gens)
 
 
+def fused_walk(ctx: Ctx, f: FunctionInfo, sname: str, reader: str) -> bool:
+    """The walk reads an element in the SAME iteration that adds it to `sname`: every insertion into the set, inside a loop, is
+    followed on every normal path back to that loop's head by `reader(<the inserted value>)` (a raising path leaves the walk).
+    Then `V in sname` means 'already walked', and skipping such an element loses nothing."""
+    g = ctx.cfg(f)
+    loops = [n for n in g.nodes if n.kind == "loop" and isinstance(n.ast, ast.For)]
+    mine = [c for c in contributions(ctx, f) if c.sname == sname]
+    if not mine:
+        return False
+    for c in mine:
+        a = c.node
+        encl = [fr.node for fr in a.frames if fr.kind == "loop"]
+        inner = [l for l in loops if l.ast in encl]
+        if not inner or c.gens:
+            return False
+        il = max(inner, key=lambda l: l.lineno)
+        vals = {n for n in names_in(c.elt) if n != "self" and not n.startswith("self.")}
+        if isinstance(a.ast, ast.Call) and a.ast.args:
+            vals |= {n for n in names_in(a.ast.args[0]) if n != "self"}
+        rds = [r for r in ctx.calls(f, name=reader) if any(fr.kind == "loop" and fr.node is il.ast for fr in r.frames)
+               and isinstance(r.ast, ast.Call) and r.ast.args and (names_in(r.ast.args[0]) & vals)]
+        if not rds:
+            return False
+        if find_path(g, a.id, [il.id], avoid=[r.id for r in rds], labels=NORMAL) is not None:
+            return False
+    return True
+
+
+def already_walked_guard(x: ast.AST, sname: str) -> bool:
+    return isinstance(x, ast.Compare) and len(x.ops) == 1 and isinstance(x.ops[0], (ast.In, ast.NotIn)) \
+        and isinstance(x.left, ast.Name) and norm_text(x.comparators[0]) == sname
+
+
 def r1(ctx: Ctx, rid: str = "C05.R1") -> None:
     ctx.rule(rid, "reachability covers every retained snapshot: the walk iterates metadata.snapshots unfiltered, every "
              "manifest list feeds the manifest set and every manifest feeds the data-file set; the only conditions on an "
@@ -391,6 +424,29 @@ def r1(ctx: Ctx, rid: str = "C05.R1") -> None:
                 {n for n in org["names"] if not n.startswith("self")}
             bad = [x for x in conds + c.filters if not (names_in(x) - {"self"}) <= argnames | {"self.storage"} | gen_vars
                    and "exists" not in norm_text(x)]
+            # a FUSED walk (each list is read in the iteration that adds it to the set of walked lists): `V in <walked>` skips
+            # what was walked before, and the empty-path guard of the upstream element guards this insertion too
+            chain = [rs.get("manifest_list"), rs.get("manifest_path"), rs.get("file_path")]
+            readers = {rs.get("manifest_list"): "read_manifest_list_file", rs.get("manifest_path"): "read_manifest_file"}
+            ups = [u for u in chain[:chain.index(sname) + 1] if u] if sname in chain else []
+            still = []
+            for x in bad:
+                okx = False
+                for u in ups:
+                    if u not in readers:
+                        continue
+                    if already_walked_guard(x, u) and (u == sname or fused_walk(ctx, f, u, readers[u])):
+                        okx = True
+                    elif u != sname and x in conds and fused_walk(ctx, f, u, readers[u]):
+                        uargs = set()
+                        for cu in [cu for cu in cons if cu.sname == u]:
+                            uargs |= {n for n in names_in(cu.elt) if n != "self" and not n.startswith("self.")}
+                            uargs |= {n for n in sl.origins(cu.elt, cu.node.id)["names"] if not n.startswith("self")}
+                        if (names_in(x) - {"self"}) and (names_in(x) - {"self"}) <= uargs:
+                            okx = True
+                if not okx:
+                    still.append(x)
+            bad = still
             # a comprehension filter must test the element's own source (truthiness of the path), not another attribute
             bad += [x for x in c.filters if x not in bad and not any(
                 isinstance(y, ast.Attribute) and y.attr == attr for y in ast.walk(x)) and not isinstance(x, ast.Name)]
@@ -404,6 +460,8 @@ def r1(ctx: Ctx, rid: str = "C05.R1") -> None:
         rd = ctx.calls(f, name=reader)
         inl = [r for r in rd if lp and any(fr.kind == "loop" and fr.node is lp[0].ast for fr in r.frames)]
         ok = bool(lp) and bool(inl)
+        if not lp and fused_walk(ctx, f, sname, reader):
+            ok = True  # each element is read in the iteration that adds it
         ctx.ob(rid, f, f"every element of {sname} is read with {reader}", lp[0] if lp else None, ok,
                "no manifest (list) of a retained snapshot is skipped", text=reader)
 
@@ -419,6 +477,10 @@ def r1_noskip(ctx: Ctx, rid: str) -> None:
     for sname, reader in ((rs["manifest_list"], "read_manifest_list_file"), (rs["manifest_path"], "read_manifest_file")):
         lp = [l for l in loops if norm_text(l.ast.iter) == sname]  # type: ignore[union-attr]
         rd = [r for r in ctx.calls(f, name=reader) if lp and any(fr.kind == "loop" and fr.node is lp[0].ast for fr in r.frames)]
+        if not lp and fused_walk(ctx, f, sname, reader):
+            ctx.ob(rid, f, f"every element added to {sname} is read with {reader} in the same iteration", None, True,
+                   "fused walk: the insertion is followed by the read on every normal path back to the loop head", text=reader)
+            continue
         if not lp or not rd:
             ctx.ob(rid, f, f"loop over {sname} reads with {reader}", lp[0] if lp else None, False,
                    "the reachability walk must read every manifest (list) of every retained snapshot", text=reader)
@@ -455,6 +517,25 @@ def r1_noskip(ctx: Ctx, rid: str) -> None:
             guard_false = {(b.id, d) for b in g.nodes if b.kind == "branch" and b.ast is not None
                            and (names_in(b.ast) - {"self"}) <= srcnames and (names_in(b.ast) - {"self"})
                            for d, l in g.succ[b.id] if l == "false"}
+            # `if V in <this set>: continue` - the element IS in the set already; for a downstream set the skip is sound when the
+            # upstream walk is fused (what is in the set of walked lists has been read)
+            chain = [rs["manifest_list"], rs["manifest_path"], rs["file_path"]]
+            rdr = {rs["manifest_list"]: "read_manifest_list_file", rs["manifest_path"]: "read_manifest_file"}
+            for b in g.nodes:
+                if b.kind != "branch" or b.ast is None:
+                    continue
+                for u in chain[:chain.index(sname) + 1]:
+                    if u in rdr and already_walked_guard(b.ast, u) and (u == sname or fused_walk(ctx, f, u, rdr[u])):
+                        lab = "true" if isinstance(b.ast.ops[0], ast.In) else "false"  # type: ignore[attr-defined]
+                        guard_false |= {(b.id, d) for d, l in g.succ[b.id] if l == lab}
+                    elif u in rdr and u != sname and fused_walk(ctx, f, u, rdr[u]):
+                        # the empty-path guard of the upstream element (`if not snapshot.manifest_list: continue`)
+                        uargs = set()
+                        for cu in [cu for cu in cons if cu.sname == u]:
+                            uargs |= {n for n in ctx.slicer(f).origins(cu.elt, cu.node.id)["names"] if not n.startswith("self")}
+                        nb = names_in(b.ast) - {"self"}
+                        if nb and nb <= uargs and any(isinstance(y, ast.Attribute) and y.attr in ("manifest_list", "manifest_path") for y in ast.walk(b.ast)):
+                            guard_false |= {(b.id, d) for d, l in g.succ[b.id] if l in ("true", "false")}
             w = find_path(g, body, [il.id], avoid=[a.id], labels=NORMAL, edge_ok=lambda s_, d_, l_: (s_, d_) not in guard_false) \
                 if body != a.id else None
             ctx.ob(rid, f, f"every entry read feeds {sname}", a, w is None,
@@ -504,6 +585,12 @@ def r2(ctx: Ctx) -> None:
         if c.sname not in roles:
             continue
         ok = _is_norm_call(ctx, c.elt)
+        if not ok and isinstance(c.elt, ast.Name):
+            # a local that holds the normalised path (`p = self._normalize_path(x) ... S.add(p)`): every definition reaching the
+            # insertion is the normaliser's result
+            from .common import resolve_value as _rv
+            srcs_ = _rv(ctx, f, c.elt, c.node.id)
+            ok = bool(srcs_) and all(v_ is not None and _is_norm_call(ctx, v_) for v_, _at in srcs_)
         ctx.ob("C05.R2", f, f"{c.sname} receives _normalize_path(...)", c.node, ok,
                "the reachable side is normalised by the same function as the listed side", text=roles[c.sname])
     gp = ctx.fn(GC + "._gc_prefix")
